@@ -47,6 +47,12 @@ type APICase struct {
 	// are appended to the exported Tracks field instead of being handed to SMF.Add — the two ways
 	// of filling a value are mixed
 	DirectAppend bool `json:",omitempty"`
+	// EarlierDivision != 0: every write before the final one (the intermediate write, the failing
+	// write, and with WriteAtEnd a complete write of the finished value) is done with this time
+	// division in the TimeFormat field; the field gets its final value only afterwards
+	// (write - assign TimeFormat - write again).
+	EarlierDivision uint16 `json:",omitempty"`
+	WriteAtEnd      bool   `json:",omitempty"`
 }
 
 // Model is the pure model of what the history means (never consults the library).
@@ -143,6 +149,10 @@ func BuildLib(c APICase) *smf.SMF {
 	if c.ToggleRS && c.WriteAfter > 0 {
 		s.NoRunningStatus = !c.NoRunningStatus
 	}
+	finalTF := s.TimeFormat
+	if c.EarlierDivision != 0 {
+		s.TimeFormat = TimeFormatOf(c.EarlierDivision)
+	}
 	for i, to := range c.Tracks {
 		if c.WriteAfter > 0 && i == c.WriteAfter {
 			if c.ViaRead {
@@ -180,6 +190,10 @@ func BuildLib(c APICase) *smf.SMF {
 	if c.FailFirstAt > 0 {
 		s.WriteTo(&failAfter{budget: c.FailFirstAt - 1})
 	}
+	if c.WriteAtEnd {
+		s.WriteTo(io.Discard)
+	}
+	s.TimeFormat = finalTF
 	return s
 }
 
@@ -368,6 +382,12 @@ func API(t *rapid.T, o APIOpts) APICase {
 	if rapid.IntRange(0, 5).Draw(t, "failedWriteFirst?") == 0 {
 		c.FailFirstAt = rapid.OneOf(rapid.IntRange(1, 40), rapid.IntRange(1, 400)).Draw(t, "failFirstAt")
 	}
+	if rapid.IntRange(0, 5).Draw(t, "completeWriteFirst?") == 0 {
+		c.WriteAtEnd = true
+	}
+	if (c.WriteAtEnd || c.FailFirstAt > 0 || c.WriteAfter > 0) && rapid.Bool().Draw(t, "retimeAfterWrite?") {
+		c.EarlierDivision = Division().Draw(t, "earlierDivision")
+	}
 	return c
 }
 
@@ -431,6 +451,12 @@ func APIClasses(c APICase) (classes []string, nontrivial bool) {
 	}
 	if c.ToggleRS {
 		set["running-status-option-toggled"] = true
+	}
+	if c.WriteAtEnd {
+		set["written-completely-before"] = true
+	}
+	if c.EarlierDivision != 0 {
+		set["time-format-assigned-after-a-write"] = true
 	}
 	if c.DirectAppend {
 		set["tracks-appended-to-the-field"] = true
